@@ -12,6 +12,8 @@ pub mod climatedata;
 pub mod convert;
 pub mod energy;
 pub mod utils;
+#[cfg(cteenergymodel_verif)]
+pub mod verif_hooks;
 
 pub use checks::check;
 pub use purge::purge_unused;
